@@ -709,4 +709,42 @@ example : readCountsAt 840 3 ((List.replicate 840 7 ++ intensityBytes [1, 2, 655
     = some [5, 2147483640] := by decide +kernel
 example : readCountsAt 840 3 ((List.replicate 840 7 ++ intensityBytes [1, 2, 65535] ++ bodyBytes [5, -7]).take 845) 2 = none := by decide +kernel
 example : (List.range 3).map (intensityAt (List.replicate 840 7 ++ intensityBytes [1, 2, 65535]) 840) = [1, 2, 65535] := by decide +kernel
+
+/-! ## declared scaling factors and resolution codes (session 3) -/
+
+/-- the resolution table of the source is the table the model reader looks the header code up in -/
+theorem gen_phase_res_table : zygoPhaseRes = modelPhaseRes := by decide
+
+/-- every resolution factor of the source's table is positive (so every declared step below is) -/
+theorem phase_res_pos (res : Nat) (R : Int) (h : (res, R) ∈ zygoPhaseRes) : 0 < R := by
+  simp only [zygoPhaseRes, List.mem_cons, Prod.mk.injEq, List.mem_nil_iff, or_false] at h
+  omega
+
+/-- declared factors: a file that declares scale factor `S`, obliquity `O` and a resolution code with factor `R` reads
+every count as `S·O·32768/R` times what a library-written file (unit factors, code 1) reads for the same count — the
+statement the correspondence checks on instrument-style files, here over the source's own scaling formula -/
+theorem zygo_declared_factors (n W S O : ℚ) (res : Nat) (R : Int) (h : (res, R) ∈ zygoPhaseRes) :
+    Generated.C14.zygoReadValue n W S O R = Generated.C14.zygoReadValue n W 1 1 phaseRes1 * (S * O * phaseRes1 / R) := by
+  have hR : (0 : ℚ) < (R : ℚ) := by exact_mod_cast phase_res_pos res R h
+  simp only [Generated.C14.zygoReadValue, phaseRes1]
+  push_cast
+  field_simp
+
+/-- one quantisation step, for EVERY resolution code of the table and every declared positive scale / obliquity /
+wavelength: counts `trunc(x / step)` with `step` = the value the reader gives one count read back within one step of `x`
+(the library's writer is the case `S = O = 1`, code 1: `zygo_quant_error`) -/
+theorem zygo_quant_error_any_resolution (x W S O : ℚ) (res : Nat) (R : Int) (h : (res, R) ∈ zygoPhaseRes)
+    (hW : 0 < W) (hS : 0 < S) (hO : 0 < O) :
+    |x - Generated.C14.zygoReadValue (truncRat (x / Generated.C14.zygoReadValue 1 W S O R)) W S O R|
+      < Generated.C14.zygoReadValue 1 W S O R := by
+  have hR : (0 : ℚ) < (R : ℚ) := by exact_mod_cast phase_res_pos res R h
+  have hq : 0 < Generated.C14.zygoReadValue 1 W S O R := by
+    simp only [Generated.C14.zygoReadValue]; positivity
+  have e : ∀ n : ℚ, Generated.C14.zygoReadValue n W S O R = Generated.C14.zygoReadValue 1 W S O R * n := by
+    intro n; simp only [Generated.C14.zygoReadValue]; ring
+  rw [e]
+  exact quant_error x _ hq
+
+example : ((2 : Nat), (131072 : Int)) ∈ zygoPhaseRes := by decide
+example : phaseResOf modelPhaseRes 3 = none ∧ phaseResOf modelPhaseRes 0 = some 4096 := by decide
 end C14
